@@ -107,6 +107,16 @@ pub fn generate(seed: u64, tier: &str, index: u64) -> Workspace {
         } else {
             bins.push(crate_name.clone());
             for _ in 1..nb {
+                // sometimes a target name that another buildpack of the workspace uses too
+                // (each buildpack has its own `helper`); the compiled files then share one
+                // path in the Cargo target directory
+                if r.chance(1, 3) {
+                    let shared = (*r.pick(&["helper", "exec-d-shared"])).to_string();
+                    if !bins.contains(&shared) {
+                        bins.push(shared);
+                        continue;
+                    }
+                }
                 uniq += 1;
                 bins.push(format!("{}{uniq}", *r.pick(&["helper", "exec-d-", "tool_"])));
             }
@@ -122,6 +132,17 @@ pub fn generate(seed: u64, tier: &str, index: u64) -> Workspace {
             id: format!("{}/{}", *r.pick(&["acme", "org.example", "a-b"]), crate_name.replace('_', "-")),
             bins,
         });
+    }
+    // every third workspace with several buildpacks: two of them have their own `helper`
+    if libcnb.len() >= 2 && index % 3 == 0 {
+        for b in libcnb.iter_mut().take(2) {
+            if b.bins.len() == 1 {
+                b.bins[0] = b.crate_name.clone();
+            }
+            if !b.bins.iter().any(|t| t == "helper") {
+                b.bins.push("helper".into());
+            }
+        }
     }
     // stratified by index: every fourth workspace is packaged from a composite's directory
     let stratum = index % 4;
@@ -456,9 +477,19 @@ pub fn judge_clean(w: &Workspace, l: &Layout, out: &RunOut) -> Vec<String> {
             if file_bytes(&snap, "buildpack.toml").as_deref() != Some(&src[..]) {
                 v.push(format!("{id}: buildpack.toml is not byte-identical to the source"));
             }
+            // a target name used by several buildpacks leaves only the last one built in the
+            // target directory: there the binary is recognised by the token its source prints
+            let name_is_shared = |t: &str| w.libcnb.iter().filter(|o| o.bins.iter().any(|x| x == t)).count() > 1;
+            let carries = |bytes: Option<Vec<u8>>, t: &str| {
+                let marker = format!("{}-{}-{}", b.crate_name, t, w.token).into_bytes();
+                bytes.is_some_and(|h| h.windows(marker.len()).any(|win| win == &marker[..]))
+            };
             let main = std::fs::read(target_dir.join(b.main_target())).unwrap_or_default();
-            if main.is_empty() || file_bytes(&snap, "bin/build").as_deref() != Some(&main[..]) {
+            if main.is_empty() || (!name_is_shared(b.main_target()) && file_bytes(&snap, "bin/build").as_deref() != Some(&main[..])) {
                 v.push(format!("{id}: bin/build is not the compiled main binary ({})", b.main_target()));
+            }
+            if !carries(file_bytes(&snap, "bin/build"), b.main_target()) {
+                v.push(format!("{id}: bin/build is not this buildpack's main binary ({}): its token is missing", b.main_target()));
             }
             match snap.get(b"bin/detect") {
                 Some(Node::Symlink { target }) if target == b"build" => {}
@@ -473,8 +504,11 @@ pub fn judge_clean(w: &Workspace, l: &Layout, out: &RunOut) -> Vec<String> {
             for t in additional {
                 let p = format!(".libcnb-cargo/additional-bin/{t}");
                 let compiled = std::fs::read(target_dir.join(t)).unwrap_or_default();
-                if compiled.is_empty() || file_bytes(&snap, &p).as_deref() != Some(&compiled[..]) {
+                if compiled.is_empty() || (!name_is_shared(t) && file_bytes(&snap, &p).as_deref() != Some(&compiled[..])) {
                     v.push(format!("{id}: additional binary {t} missing or different from the compiled one"));
+                }
+                if !carries(file_bytes(&snap, &p), t) {
+                    v.push(format!("{id}: additional binary {t} is not the one compiled from this buildpack (its token is missing)"));
                 }
                 want_entries.insert(p);
             }
